@@ -219,11 +219,14 @@ type hostObs struct {
 	bad    bool
 }
 
-func probeHost(h *mux.Hosts, host string) hostObs {
+func probeHost(h *mux.Hosts, host string) hostObs { return probeHostURL(h, host, "") }
+
+// probeHostURL: urlHost is the authority of the request target (URL.Host); the matcher goes by the Host header.
+func probeHostURL(h *mux.Hosts, host, urlHost string) hostObs {
 	var o hostObs
 	ctx := types.NewContext()
 	o.panicv, o.bad = Guard(func() {
-		o.ok = h.Match(hv.NewRequest(hv.Req{Method: "GET", Path: "/", Host: host}, &hv.Obs{}), ctx)
+		o.ok = h.Match(hv.NewRequest(hv.Req{Method: "GET", Path: "/", Host: host, URLHost: urlHost}, &hv.Obs{}), ctx)
 	})
 	ps := map[string]string{}
 	ctx.Range(func(k, v string) { ps[k] = v })
@@ -324,6 +327,16 @@ func c14Expand(raw json.RawMessage) (any, error) {
 					class = "delete-case-sensitive"
 				}
 				c.Viols = append(c.Viols, explore.Violation{Property: "C14", Clause: "C14.match", Class: class, History: hs, Probe: fmt.Sprintf("Match(Host=%q) [normalised %q]", host, normaliseHost(host)), Observed: got, Expected: want + "  (live: " + m.String() + ")"})
+			}
+			// the matcher goes by the Host header: the authority of the request target (set by an absolute-form
+			// target or a rewriting proxy) naming another domain changes nothing
+			decoy := "a.com"
+			if normaliseHost(host) == "a.com" {
+				decoy = "zz.com"
+			}
+			c.Probes++
+			if od := probeHostURL(h, host, decoy).String(); od != got {
+				c.Viols = append(c.Viols, explore.Violation{Property: "C14", Clause: "C14.match", Class: "goes-by-url-authority", History: hs, Probe: fmt.Sprintf("Match(Host=%q, URL.Host=%q)", host, decoy), Observed: od, Expected: got + "  (the answer for the same Host header with an empty URL.Host; live: " + m.String() + ")"})
 			}
 			if !framed && op.K == "del" && beforeExp[i] == want && before[i] != got {
 				framed = true
